@@ -59,12 +59,16 @@ Inductive case :=
 
 Definition alloc_ok (alloc cost : N) : bool := (alloc <=? A0 + A1 * cost)%N.
 
-(* stream reads: the abstract cost of ReadBytes contains whole buffers (up to 1 MiB up front, c8478d2), and a buffer of
-   n bytes costs the allocator n plus size-class rounding (<= 1/4), not 64 n; the factor A1 stays for the small costs
-   (loop iterations, tiny makes, the harness's own bookkeeping per element), capped at 4096 units.
-   A length field of 2^30 backed by 3 bytes: cost 2^20, bound 64 KiB + 256 KiB + 1.25 MiB. *)
+(* stream reads: the abstract cost of ReadBytes contains whole buffers (up to 1 MiB up front, then doubling, c8478d2), and
+   a buffer of n bytes costs the allocator n plus size-class / page rounding (<= 1/8), not 64 n; the factor A1 stays for
+   the small costs (loop iterations, tiny makes, the harness's own bookkeeping per element), capped at 4096 units.
+   A length field of 2^30 backed by 3 bytes: cost 2^20, bound 64 KiB + 256 KiB + 1.125 MiB.
+   From 1 MiB on the cost is dominated by buffers the code really makes, each of which TotalAlloc counts in full: the
+   measured allocation must also be AT LEAST the cost (minus 4096 for the unit costs), so a different growth policy
+   (one big buffer, factor 3, factor 1.5 ...) shows as a mismatch in either direction. *)
 Definition alloc_ok_stream (alloc cost : N) : bool :=
-  (alloc <=? A0 + A1 * N.min cost 4096 + cost + cost / 4)%N.
+  (alloc <=? A0 + A1 * N.min cost 4096 + cost + cost / 8)%N &&
+  ((cost <? 1048576) || (cost <=? alloc + 4096))%N.
 
 (* large inputs are written as [pat n] = [0; 1; ...; 250; 0; 1; ...] (n bytes, period 251: not a divisor of any
    buffer size of ReadBytes), so that a case with 2^20 bytes stays a short term *)
